@@ -10,7 +10,8 @@ EXPLANATION = (
     "rejected sink is closed only after the error frame was handed to it (K11), is never dropped with unflushed data (K10), the rejection slot is "
     "never overwritten (K1 on buffered_err), and no park leaves the rejection unattended or lets the rejected peer gate the bound replier's traffic "
     "(K4/K5 at parks on the rejected sink); (D4) re-binding: once the bound replier's stream ends the slot is cleared before the router moves on "
-    "(K12). The timing of the close on the wire is NOT decided.")
+    "(K12), and no park of the router leaves the requestors' streams without a wake-up (K5 on `stream`), so the re-bound replier is served. "
+    "The timing of the close on the wire is NOT decided.")
 ASSUMPTIONS = ["operation table of DESIGN §5"]
 
 
@@ -20,6 +21,10 @@ def is_c10(f):
     if f.kind == "K1" and ("slot-overwrite:server" in f.key or "buffered_err" in f.key):
         return True
     if f.kind in ("K4", "K5") and ("local:si" in f.key or "buffered_err" in f.what or "server's stream" in f.what):
+        return True
+    # "... becomes the bound one and is served": a park that leaves the requestors' streams without a wake-up means no further request
+    # reaches whichever replier is (re)bound (seed c10-17: a request window that is not reset when the replier departs)
+    if f.kind == "K5" and "stream (not polled" in f.what:
         return True
     if f.kind == "K9" and "server" in f.key:
         return True
